@@ -221,6 +221,8 @@ func runC19(c *Ctx) {
 		}
 	})
 
+	c.rule("C19.O4", "backlog and live events join without a gap: "+backlogDoc, func() { c.backlogThenRegister() })
+
 	c.rule("C19.W2", "no event is withheld from a subscriber: notifySubscribers hands every event it receives to every registered subscriber (no per-subscriber height filter: a subscriber's view after a reorg below its registration tip would otherwise miss re-connected blocks), and a subscription's bestHeight is fixed at creation", func() {
 		c.fanOutAll()
 	})
